@@ -285,6 +285,63 @@ theorem table_roundtrip_semi (cols : List Bytes) (hcols : ∀ n ∈ cols, ColOK 
     · rw [typedRow_nil]
       exact row_read_semi c t (hc c (by simp)) (fun x hx => hc x (by simp [hx]))
 
+theorem numByte_ne9 (c : UInt8) (h : numByte c) : c ≠ 9 := by
+  unfold numByte at h
+  simp only [UInt8.le_iff_toNat_le, ne_eq, ← UInt8.toNat_inj] at h ⊢
+  simp at h ⊢
+  omega
+
+theorem cellWF_ok9 (c : Cell) (h : CellWF c) : CellOK 9 c := by
+  cases c with
+  | str s => exact ⟨h.2.2.2.2, h.1, h.2.1⟩
+  | num l =>
+    obtain ⟨n, hn, rfl⟩ := h
+    exact ⟨fun hc => (numByte_ne 34 (numText_bytes n hn 34 hc)).2.2.1 rfl,
+           fun hc => numByte_ne9 9 (numText_bytes n hn 9 hc) rfl,
+           fun hc => (numByte_ne 0 (numText_bytes n hn 0 hc)).2.2.2.2.2 rfl,
+           fun hc => (numByte_ne 10 (numText_bytes n hn 10 hc)).1 rfl,
+           fun hc => (numByte_ne 13 (numText_bytes n hn 13 hc)).2.1 rfl⟩
+
+theorem cellWF_head (c : Cell) (h : CellWF c) : (cellText c).head? ≠ some 0xEF := by
+  cases c with
+  | str s => exact h.2.2.2.1
+  | num l =>
+    obtain ⟨n, hn, rfl⟩ := h
+    intro e
+    have hm : (0xEF : UInt8) ∈ n.text := List.mem_of_mem_head? e
+    exact (numByte_ne 0xEF (numText_bytes n hn 0xEF hm)).2.2.2.2.1 rfl
+
+/-- untyped reading of a whole table written after `setSeparator('\t')` -/
+theorem table_roundtrip_tab (cols : List Bytes) (hcols : ∀ n ∈ cols, ColOK n) (h2 : 2 ≤ cols.length)
+    (rows : List (List Cell)) (hrows : ∀ r ∈ rows, r.length = cols.length ∧ ∀ c ∈ r, CellWF c) :
+    readTableT [] (writeItemsG 9 46 cols (rows.flatten.map .cell)) =
+      { columns := cols, rows := rows.map (·.map expected) } := by
+  have hne : cols ≠ [] := by intro e; subst e; simp at h2
+  apply table_roundtrip_sep 9 (Or.inr (Or.inr rfl)) 46 [] cols hne hcols (Or.inr h2)
+  intro r hr
+  obtain ⟨hl, hc⟩ := hrows r hr
+  cases r with
+  | nil => simp at hl; omega
+  | cons c t =>
+    have hok : ∀ x ∈ c :: t, CellOK 9 x := fun x hx => cellWF_ok9 x (hc x hx)
+    refine ⟨hl, fun x hx => cellOK_ne_newline 9 x (hok x hx), ?_, ?_, ?_⟩
+    · unfold rowTextG
+      rw [map_localize_dot]
+      exact clean_writeRow_ok 9 (by decide) (by decide) _ hok
+    · unfold rowTextG
+      rw [map_localize_dot]
+      exact writeRow_head_ne 9 (by decide) c t (cellWF_head c (hc c (by simp)))
+    · rw [typedRow_nil]
+      unfold rowTextG
+      rw [map_localize_dot, parseRow_writeRow 9 (by decide) c t (hok c (by simp)) (fun x hx => hok x (by simp [hx]))]
+      show (cellText c :: t.map cellText).map (inferCell 46) = (c :: t).map expected
+      simp only [List.map_cons, List.map_map]
+      rw [inferCell_expected c (hc c (by simp))]
+      congr 1
+      apply List.map_congr_left
+      intro x hx
+      exact inferCell_expected x (hc x (by simp [hx]))
+
 theorem readRowsT_nil (sep dec : UInt8) (fuel : Nat) (f : RFile) (started : Bool) :
     readRowsT [] sep dec fuel f started = readRows sep dec fuel f started := by
   induction fuel generalizing f started with
